@@ -423,6 +423,17 @@ func (fv *FuncVC) havocModifies(c *Contract, env *Env, callee *ssa.Function, tag
 	e := newEffect()
 	for _, m := range c.Modifies {
 		i := strings.Index(m, ".")
+		if i > 0 && strings.HasSuffix(m, ".content@ghost") {
+			// ghost content of one bytes.Buffer
+			if pv, ok := env.names[m[:i]]; ok && pv.T.Sort.Kind == KRef {
+				fv.ensureSort(SBytes)
+				h := fv.heapTerm(st, "ghost.content", SBytes)
+				nv := fv.fresh("bufcontent_"+tag, SBytes)
+				fv.assert(fv.wf(nv, nil))
+				st.heap["ghost.content"] = Term{S: app("store", h.S, pv.T.S, nv.S), Sort: SBytes}
+				continue
+			}
+		}
 		if i > 0 && !strings.HasPrefix(m, "global ") && !strings.HasPrefix(m, "ghost ") {
 			head, field := m[:i], m[i+1:]
 			if pv, ok := env.names[head]; ok && pv.T.Sort.Kind == KRef && pv.T.Go != nil {
